@@ -674,10 +674,7 @@ class _Regrid(Base):
     dtypes = "fc"
 
     def gen(self, rng, quick):
-        while True:
-            doms, sp = _gen_rg_doms(rng, maxsize=32)
-            if all(s >= 2 for s in doms[sp]["shape"]):     # axis length 1: see findings (adjoint raises)
-                break
+        doms, sp = _gen_rg_doms(rng, maxsize=32)           # axes of length 1 included (finding regrid_unit_axis)
         doms[sp]["harmonic"] = False
         doms[sp] = U.sub_json(doms[sp])
         ns = []
@@ -717,9 +714,9 @@ class _Regrid(Base):
             new = np.zeros((N,) + v.shape[1:], dtype=np.result_type(v.dtype, np.float64))
             for j in range(N):
                 pos = j * n / N
-                b = min(n - 2, int(np.floor(pos)))
+                b = max(0, min(n - 2, int(np.floor(pos))))
                 t = pos - b
-                new[j] = v[b] * (1 - t) + v[b + 1] * t
+                new[j] = v[b] * (1 - t) + v[min(b + 1, n - 1)] * t
             v = np.moveaxis(new, 0, ax)
         return v.reshape(-1)
 
